@@ -47,7 +47,7 @@ pub enum Case {
     /// rb - rs + margin .. rb + rs - margin from the big centre, margin = 5% of the small radius
     CrossTiny { x: i32, y: i32, rb: u32, rs: u32, theta: u16, f: u16 },
     /// (nearly) concentric circles: radii r and r + delta, centres `off` apart. delta mode 0: 0; 1: fl(1e-9) moved by `ulps` ulps of r;
-    /// 2: 10^-(3 + 9 f/65535); off mode 0: 0; 1: 1e-13; 2: 1e-11; 3: 1e-9. Inside the tolerance band only the reported points are judged.
+    /// 2: 10^-(3 + 9 f/65535); off mode 0: 0; 1: 1e-13; 2: 1e-11; 3: 1e-9; 4..7: 1e-155, 2e-162, 1e-200, 1e-300. Inside the tolerance band only the reported points are judged.
     Concentric { x: i32, y: i32, r: u32, theta: u16, dmode: u8, ulps: i8, f: u16, omode: u8, neg: bool },
     /// point at distance r*(1-m), r, r*(1+m) from the centre (zone 0, 1, 2), m = 1e-3 + f/65536
     RealPos { x: i32, y: i32, r: u32, theta: u16, zone: u8, f: u16 },
@@ -499,7 +499,8 @@ pub fn run_case(c: &Case) -> CaseResult {
                 _ => 10f64.powf(-(3.0 + 9.0 * *f as f64 / 65535.0)),
             };
             let r2 = if *neg && r - delta >= 1e-2 { r - delta } else { r + delta };
-            let off = [0.0, 1e-13, 1e-11, 1e-9][(*omode % 4) as usize];
+            // (offsets whose squares are subnormal or underflow: a centre distance taken as sqrt(dx^2 + dy^2) is then wrong or zero)
+            let off = [0.0, 1e-13, 1e-11, 1e-9, 1e-155, 2e-162, 1e-200, 1e-300][(*omode % 8) as usize];
             let u = dir(*theta);
             let (ca, cb) = (Circle::new(Point::new(cx, cy), r), Circle::new(Point::new(cx + off * u.0, cy + off * u.1), r2));
             let gap = (r2 - r).abs();
@@ -950,7 +951,7 @@ fn real_cases() -> impl Strategy<Value = Case> {
         3 => (coord(), coord(), any::<u16>(), any::<u16>(), any::<bool>(), (sp(), sp(), sp(), sp())).prop_map(|(x, y, theta, f, neg, (a1, b1, a2, b2))| Case::RealLL { x, y, theta, f, neg, a1, b1, a2, b2 }),
         1 => (coord(), coord(), rad(), any::<u16>(), 0u8..3, prop_oneof![Just(0u16), any::<u16>()]).prop_map(|(x, y, r, theta, zone, f)| Case::RealPos { x, y, r, theta, zone, f }),
         3 => (coord(), coord(), prop_oneof![1_000u32..=1_000_000, 500_000u32..=1_000_000], prop_oneof![1_000u32..=1_000_000, 1_000u32..=20_000], any::<u16>(), any::<u16>()).prop_map(|(x, y, rb, rs, theta, f)| Case::CrossTiny { x, y, rb, rs, theta, f }),
-        2 => (coord(), coord(), rad(), any::<u16>(), 0u8..3, -4i8..=4, any::<u16>(), 0u8..4, any::<bool>()).prop_map(|(x, y, r, theta, dmode, ulps, f, omode, neg)| Case::Concentric { x, y, r, theta, dmode, ulps, f, omode, neg }),
+        2 => (coord(), coord(), rad(), any::<u16>(), 0u8..3, -4i8..=4, any::<u16>(), 0u8..8, any::<bool>()).prop_map(|(x, y, r, theta, dmode, ulps, f, omode, neg)| Case::Concentric { x, y, r, theta, dmode, ulps, f, omode, neg }),
         1 => (coord(), coord(), any::<u16>(), sp(), sp(), sp(), prop_oneof![Just(0i32), Just(1), Just(-1), -100_000i32..=100_000]).prop_map(|(x, y, theta, a, b, t, off)| Case::RealContains { x, y, theta, a, b, t, off }),
     ]
 }
@@ -966,7 +967,7 @@ pub fn real_main() {
          (coordinates +-1e3, radii 1e-3..1e3) constructed at least 2% of the radius sum (>= 2e-3) away from every kind boundary, so the \
          expected kind is unambiguous and the chord well conditioned; (iii) constructed tangencies at arbitrary positions and angles; (iv) near-tangent configurations built from exactly representable binary fractions (centres k/1024, radii 5m/1024 in [1,1000], radii of comparable and of very different size, axis and 3-4-5 directions) whose gap to tangency is 5k*2^-30 in [1.9e-8, 7.6e-5] - 19 to 76000 times the library tolerance - on either side: only the kind and the number of points are judged there. \
          (v) a small circle (radius 1e-3..1) crossing a big one (1..1e3, ratios to 1e6) with 5% of the small radius to either tangency; (vi) concentric and nearly \
-         concentric circles (radii 0, about 1e-9 +- a few ulps, 1e-12..1e-3 apart; centres 0, 1e-13, 1e-11, 1e-9 apart); (vii) real-valued lines through a common point \
+         concentric circles (radii 0, about 1e-9 +- a few ulps, 1e-12..1e-3 apart; centres 0, 1e-13, 1e-11, 1e-9, 1e-155, 2e-162, 1e-200, 1e-300 apart); (vii) real-valued lines through a common point \
          at an angle of 1e-6..1 rad, defining points 1..1000 apart; point position at r(1-m), r, r(1+m) with m >= 1e-3; point-on-line tests on and >= 1e-3 off the line; \
          (viii) raw configurations on the 2^-37 grid (two circles, circle and line, two lines), absolute or placed relative to a tangent / concentric position with an offset of k*2^-37: \
          the kind is judged when the configuration is >= 2e-8 (20 x the library tolerance) from every kind boundary, the reported points always (finite, within 1e-7 of both primitives) - the thorough tier also drives (viii) with libFuzzer. \
